@@ -349,7 +349,7 @@ structure Owned where
 
 /-- `append(axis, other)`: layout and storage length afterwards (the storage is grown to the
 new `min_data_len` by `set_len` / `resize` when it is shorter). `axis ≥ ndim` with matching
-shapes panics for `NdLayout` (`size(axis)`); for `DynLayout` it is outside this model. -/
+shapes panics in `size(axis)` for both layout kinds (for `DynLayout` since fix `90df0e8`). -/
 def append (t : Owned) (axis : Nat) (other : List (Nat × Nat)) : Except Err Owned :=
   if !shapeMatch t.dims other axis then .error .shapeMismatch
   else if t.dims.length ≤ axis then .error .panic
@@ -451,9 +451,25 @@ def runViews (mutable : Bool) : AView → List ViewOp → Option AView
     | none => none
     | some w => runViews mutable w ops
 
+/-- In-place `Tensor::reshape(shape)` after fix `d75b8c9`: the new layout is computed (and
+the element counts compared) before the storage is touched; `none` = panic, tensor unchanged.
+A non-contiguous tensor is first copied into a fresh `Vec` of exactly `len` elements. -/
+def reshape (t : Owned) (shape : List Nat) : Option Owned :=
+  if (checkedShapeLen shape).isNone then none            -- `from_shape` panics
+  else if prod shape ≠ len t.dims then none              -- `ReshapeError::LengthMismatch`
+  else if isContiguous t.dims then some ⟨contigDims shape, t.dataLen, t.cap⟩
+  else some ⟨contigDims shape, len t.dims, len t.dims⟩
+
+/-- `make_contiguous()`. -/
+def makeContiguous (t : Owned) : Owned :=
+  if isContiguous t.dims then t
+  else ⟨contigDims (shapeOf t.dims), len t.dims, len t.dims⟩
+
 inductive OwnedOp where
   | clip (dim start stop : Nat)
   | append (axis : Nat) (other : List (Nat × Nat))
+  | reshape (shape : List Nat)
+  | makeContiguous
   deriving DecidableEq, Repr
 
 /-- One mutating call on an owned tensor; a failing call (error or panic) leaves the tensor
@@ -464,6 +480,16 @@ def stepOwned (t : Owned) : OwnedOp → Owned
     match append t axis other with
     | .ok t' => t'
     | .error _ => t
+  | .reshape shape => (reshape t shape).getD t
+  | .makeContiguous => makeContiguous t
+
+/-- `reshape` before fix `d75b8c9`: a non-contiguous tensor is copied into a `len`-element
+`Vec` *before* the shape is validated; on a mismatch the call panics and leaves the new
+storage with the old layout. Returns the state and whether the call panicked. -/
+def reshapeOld (t : Owned) (shape : List Nat) : Owned × Bool :=
+  let t1 : Owned := if isContiguous t.dims then t else ⟨t.dims, len t.dims, len t.dims⟩
+  if (checkedShapeLen shape).isNone ∨ prod shape ≠ len t.dims then (t1, true)
+  else (⟨contigDims shape, t1.dataLen, t1.cap⟩, false)
 
 /-! ### `DynLayout` before fix `90df0e8`: one array `shape ++ strides`, indexed unchecked
 
